@@ -10,8 +10,8 @@
    No axioms. *)
 From V.lib Require Import Base.
 From V.c13 Require Import C13Model.
-From V.c15 Require Import C15Model.
-From V.c16 Require Import C16ParseModel.
+From V.c15 Require Import C15Model C15HevcModel.
+From V.c16 Require Import C16ParseModel C16HevcParseModel.
 
 Notation "x <- m ;; k" := (bind m (fun x => k))
   (at level 61, m at next level, right associativity).
@@ -599,5 +599,563 @@ Section Logic.
     cbn [pps_run_length_minus1 pps_top_left pps_bottom_right pps_slice_group_id pps_pic_scaling_lists].
     destruct Hsg as (H1 & H2 & H3 & H4). auto.
   Qed.
+
+  (* ================================================================================================
+     HEVC (C15HevcModel.v through the wrappers of C16HevcParseModel.v).  Everything below may use ALL the
+     hypotheses above plus the ones declared here (only the EBSP reader instance is needed: every HEVC
+     parser contains a data-driven loop). *)
+  Variable bib : St -> N.
+  Hypothesis H_more_true : forall s, inv s -> fst (r_more R s) = true -> 0 < mu (snd (r_more R s)).
+  Hypothesis H_more_err : forall s, inv s -> mu s = 0 -> fst (r_more R s) = false.
+  Hypothesis H_flag_true : forall s, inv s -> fst (r_flag R s) = true -> 0 < mu (snd (r_flag R s)).
+  Hypothesis H_align : forall s, inv s -> 0 < mu s -> bib s < 8 ->
+    0 < mu (snd (r_flag R s)) /\ bib s < bib (snd (r_flag R s)) /\ bib (snd (r_flag R s)) <= 8.
+
+  (* weakly decreasing: if the program ends without error it has consumed potential *)
+  Definition Dw {A} (m : @M St A) : Prop :=
+    forall s, inv s ->
+      m s = Err \/ exists a s', m s = Ok (a, s') /\ inv s' /\ mu s' <= mu s /\ (0 < mu s' -> mu s' < mu s).
+
+  Lemma D_Dw {A} (m : @M St A) : D m -> Dw m.
+  Proof.
+    intros H s Hs. destruct (H s Hs) as [E|(a & s' & E & Hi & Hm & Hd)]; [left; exact E|right].
+    exists a, s'. repeat split; auto. intros Hp. apply Hd. lia.
+  Qed.
+  Lemma Dw_J {A} (m : @M St A) : Dw m -> J (fun _ => True) m.
+  Proof.
+    intros H s Hs. destruct (H s Hs) as [E|(a & s' & E & Hi & Hm & _)]; [left; exact E|right].
+    exists a, s'. auto.
+  Qed.
+  Lemma Dw_bind_l {A C} (m : @M St A) (k : A -> @M St C) :
+    Dw m -> (forall a, J (fun _ => True) (k a)) -> Dw (bind m k).
+  Proof.
+    intros Hm Hk s Hs. destruct (Hm s Hs) as [E|(a & s1 & E & Hi & Hmu & Hd)].
+    { left. apply bind_err. exact E. }
+    rewrite (bind_ok _ _ _ _ _ E).
+    destruct (Hk a s1 Hi) as [E2|(b & s2 & E2 & Hi2 & Hmu2 & _)]; [left; exact E2|right].
+    exists b, s2. repeat split; auto; try lia.
+  Qed.
+  Lemma Dw_bind_r {A C} (m : @M St A) (k : A -> @M St C) :
+    J (fun _ => True) m -> (forall a, Dw (k a)) -> Dw (bind m k).
+  Proof.
+    intros Hm Hk s Hs. destruct (Hm s Hs) as [E|(a & s1 & E & Hi & Hmu & _)].
+    { left. apply bind_err. exact E. }
+    rewrite (bind_ok _ _ _ _ _ E).
+    destruct (Hk a s1 Hi) as [E2|(b & s2 & E2 & Hi2 & Hmu2 & Hd)]; [left; exact E2|right].
+    exists b, s2. repeat split; auto; try lia.
+  Qed.
+
+  Lemma mu_pos_of_no_err s : inv s -> r_err R s = false -> 0 < mu s.
+  Proof.
+    intros Hs He. destruct (N.eq_dec (mu s) 0) as [Hz|Hz]; [|lia]. apply (H_err s Hs) in Hz. congruence.
+  Qed.
+
+  (* ---- rep_until_err_f: `for i < n { body; if AccError != nil { break } }` *)
+  Lemma rep_until_err_f_total {A} (body : @M St A) : Dw body ->
+    forall fl n s, inv s -> mu s < N.of_nat fl ->
+      rep_until_err_f R fl n body s = Err \/
+      exists l s', rep_until_err_f R fl n body s = Ok (l, s') /\ inv s' /\ mu s' <= mu s /\
+                   lenN l <= mu s + 1 /\ lenN l <= n.
+  Proof.
+    intros Hb. induction fl as [|f IH]; intros n s Hs Hf; [lia|].
+    cbn [rep_until_err_f]. destruct (n =? 0) eqn:Hn0.
+    { right. exists [], s. unfold ret, lenN. cbn [length]. repeat split; auto; lia. }
+    destruct (Hb s Hs) as [E|(x & s1 & E & Hi1 & Hm1 & Hd1)].
+    { left. apply bind_err. exact E. }
+    rewrite (bind_ok _ _ _ _ _ E). rewrite bind_get_err.
+    destruct (r_err R s1) eqn:He1.
+    { right. exists [x], s1. unfold ret, lenN. cbn [length]. repeat split; auto; lia. }
+    pose proof (mu_pos_of_no_err s1 Hi1 He1) as Hp1. specialize (Hd1 Hp1).
+    destruct (IH (n - 1) s1 Hi1) as [E2|(t & s2 & E2 & Hi2 & Hm2 & Hl2 & Hn2)]; [lia| |].
+    - left. apply bind_err. exact E2.
+    - right. exists (x :: t), s2. rewrite (bind_ok _ _ _ _ _ E2). unfold ret.
+      rewrite lenN_cons. repeat split; auto; lia.
+  Qed.
+
+  Lemma J_rep_until_err_f {A} (body : @M St A) fl n : B < N.of_nat fl -> Dw body ->
+    J (fun l => lenN l <= B + 1 /\ lenN l <= n) (rep_until_err_f R fl n body).
+  Proof.
+    intros Hf Hb s Hs. pose proof (H_B s Hs) as HB.
+    destruct (rep_until_err_f_total body Hb fl n s Hs) as [E|(l & s' & E & Hi & Hm & Hl & Hn)]; [lia|left; exact E|right].
+    exists l, s'. repeat split; auto; lia.
+  Qed.
+
+  Lemma bind_rd_more {C} (k : bool -> @M St C) s : bind (rd_more R) k s = k (fst (r_more R s)) (snd (r_more R s)).
+  Proof. unfold bind, rd_more. destruct (r_more R s). reflexivity. Qed.
+  Lemma bind_rd_flag {C} (k : bool -> @M St C) s : bind (rd_flag R) k s = k (fst (r_flag R s)) (snd (r_flag R s)).
+  Proof. unfold bind, rd_flag. destruct (r_flag R s). reflexivity. Qed.
+
+  (* ---- hext_data_loop: `for more { flags = append(flags, ReadFlag()); more = MoreRbspData() }` *)
+  Lemma hext_data_loop_total : forall fl acc s, inv s -> mu s < N.of_nat fl ->
+    hext_data_loop R fl acc s = Err \/
+    exists l s', hext_data_loop R fl acc s = Ok (l, s') /\ inv s' /\ mu s' <= mu s /\
+                 lenN l <= lenN acc + mu s.
+  Proof.
+    induction fl as [|f IH]; intros acc s Hs Hf; [lia|].
+    cbn [hext_data_loop]. rewrite bind_rd_more.
+    destruct (H_more s Hs) as (M1 & M2). pose proof (H_more_true s Hs) as M3.
+    destruct (r_more R s) as [more s1]. cbn [fst snd] in M1, M2, M3 |- *.
+    destruct more.
+    2:{ right. exists acc, s1. split; [reflexivity|]. repeat split; auto; lia. }
+    specialize (M3 eq_refl).
+    destruct (D_flag s1 M1) as [E|(b & s2 & E & Hi2 & Hm2 & Hd2)].
+    { left. apply bind_err. exact E. }
+    rewrite (bind_ok _ _ _ _ _ E). specialize (Hd2 M3).
+    destruct (IH (acc ++ [b]) s2 Hi2) as [E2|(l & s3 & E2 & Hi3 & Hm3 & Hl3)]; [lia|left; exact E2|right].
+    exists l, s3. rewrite lenN_app in Hl3. change (lenN [b]) with 1 in Hl3. repeat split; auto; lia.
+  Qed.
+
+  Lemma J_hext_data_loop fl : B < N.of_nat fl ->
+    J (fun l => lenN l <= B) (hext_data_loop R fl []).
+  Proof.
+    intros Hf s Hs. pose proof (H_B s Hs) as HB.
+    destruct (hext_data_loop_total fl [] s Hs) as [E|(l & s' & E & Hi & Hm & Hl)]; [lia|left; exact E|right].
+    exists l, s'. rewrite lenN_nil in Hl. repeat split; auto; lia.
+  Qed.
+
+  (* ---- byte_alignment: alignment_bit_equal_to_one must be read as 1 (so no error is pending), then
+     at most 7 zero bits up to the byte boundary; fuel 9 is never exhausted *)
+  Lemma halign_loop_total : forall fl s, inv s -> 0 < mu s -> 8 - bib s < N.of_nat fl ->
+    halign_loop R bib fl s = Err \/
+    exists s', halign_loop R bib fl s = Ok (tt, s') /\ inv s' /\ mu s' <= mu s.
+  Proof.
+    induction fl as [|f IH]; intros s Hs Hp Hf; [lia|].
+    cbn [halign_loop]. destruct (bib s <? 8) eqn:Hb.
+    2:{ right. exists s. repeat split; auto; lia. }
+    destruct (H_align s Hs Hp) as (A1 & A2 & A3); [lia|].
+    destruct (H_flag s Hs) as (F1 & F2 & _).
+    rewrite bind_rd_flag. destruct (r_flag R s) as [b s1]. cbn [fst snd] in A1, A2, A3, F1, F2 |- *.
+    destruct b; [left; reflexivity|].
+    destruct (IH s1 F1 A1) as [E|(s' & E & Hi & Hm)]; [lia|left; exact E|right].
+    exists s'. repeat split; auto; lia.
+  Qed.
+
+  Lemma J_align_block {C} (Psi : C -> Prop) (k : unit -> @M St C) :
+    (forall u, J Psi (k u)) ->
+    J Psi (bind (rd_flag R) (fun ab => if negb ab then fail else bind (halign_loop R bib 9) k)).
+  Proof.
+    intros Hk s Hs. destruct (H_flag s Hs) as (F1 & F2 & _). pose proof (H_flag_true s Hs) as F3.
+    rewrite bind_rd_flag. destruct (r_flag R s) as [ab s1]. cbn [fst snd] in F1, F2, F3 |- *.
+    destruct ab; cbn [negb]; [|left; reflexivity]. specialize (F3 eq_refl).
+    destruct (halign_loop_total 9 s1 F1 F3) as [E|(s2 & E & Hi & Hm)]; [lia| |].
+    - left. apply bind_err. exact E.
+    - rewrite (bind_ok _ _ _ _ _ E). destruct (Hk tt s2 Hi) as [E2|(c & s3 & E2 & Hi3 & Hm3 & Hp3)]; [left; exact E2|right].
+      exists c, s3. repeat split; auto; lia.
+  Qed.
+
+  (* ---- small arithmetic *)
+  Lemma u8_lt x : u8 x < 256. Proof. unfold u8. apply N.mod_lt. discriminate. Qed.
+  Lemma u16_lt x : u16 x < 65536. Proof. unfold u16. apply N.mod_lt. discriminate. Qed.
+
+  Ltac bnd :=
+    unfold loop_bound;
+    repeat match goal with
+      | |- context [u8 ?x] => lazymatch goal with H : u8 x < 256 |- _ => fail | _ => pose proof (u8_lt x) end
+      | |- context [u16 ?x] => lazymatch goal with H : u16 x < 65536 |- _ => fail | _ => pose proof (u16_lt x) end
+      end;
+    repeat match goal with |- context [if ?c then _ else _] => destruct c end;
+    lia.
+
+  Lemma J_mapM {A C} (f : A -> @M St C) : (forall a, J (fun _ => True) (f a)) ->
+    forall l, J (fun r => length r = length l) (mapM f l).
+  Proof.
+    intros Hf. induction l as [|a t IH]; cbn [mapM].
+    - apply J_ret. reflexivity.
+    - eapply J_bind_true; [apply Hf|]. intros b. eapply J_bind; [apply IH|]. intros bs Hb. cbv beta in Hb.
+      apply J_ret. cbn [length]. lia.
+  Qed.
+
+  (* counted loops with a bound that `bnd` can show, and `rep` *)
+  Ltac jsub ::= first
+    [ eapply J_true; apply (J_rep_n (fun _ => True)); [bnd | ]
+    | eapply J_true; apply (J_rep (fun _ => True))
+    | apply J_more | apply J_trailing ].
+
+  Lemma J_hparse_profile : J (fun _ => True) (hparse_profile R).
+  Proof. unfold hparse_profile. jauto. Qed.
+
+  Lemma J_hparse_sub f : J (fun _ => True) (hparse_sub R f).
+  Proof. unfold hparse_sub. eapply J_bind_true; [destruct (fst f); [apply J_hparse_profile|jauto]|]. intro. jauto. Qed.
+
+  Lemma J_hparse_ptl max_sub : max_sub <= 255 -> J (fun _ => True) (hparse_ptl R max_sub).
+  Proof.
+    intros Hm. unfold hparse_ptl. eapply J_bind_true; [apply J_hparse_profile|]. intro.
+    eapply J_bind_true; [jauto|]. intro.
+    eapply J_bind_true.
+    - destruct (0 <? max_sub); [|jauto].
+      eapply J_bind_true; [jauto|]. intro. eapply J_bind_true; [jauto|]. intro.
+      eapply J_true. apply J_mapM. intro. apply J_hparse_sub.
+    - intro. jauto.
+  Qed.
+
+  Definition rps_ok (r : hrps) : Prop := rps_ndelta r <= 255.
+
+  Lemma J_hparse_rps_inter_entry : J (fun _ => True) (hparse_rps_inter_entry R).
+  Proof. unfold hparse_rps_inter_entry. jauto. Qed.
+
+  (* the index sets[idx - didx] is in range as soon as `sets` has at least idx entries *)
+  Lemma J_hparse_st_rps idx num sets : (N.to_nat idx <= length sets)%nat -> Forall rps_ok sets ->
+    J rps_ok (hparse_st_rps R idx num sets).
+  Proof.
+    intros Hl Hok. unfold hparse_st_rps.
+    eapply J_bind_true; [jauto|]. intros inter. destruct inter.
+    - eapply J_bind_true; [jauto|]. intros didx.
+      destruct ((didx =? 0) || (idx <? didx)) eqn:Hg.
+      { eapply J_bind_true; [apply J_set_err|]. intro. apply J_ret. unfold rps_ok. cbn [rps_ndelta hrps_zero]. lia. }
+      eapply J_bind_true; [jauto|]. intro. eapply J_bind_true; [jauto|]. intro.
+      destruct (nth_error sets (N.to_nat (idx - didx))) as [ref|] eqn:Hn.
+      2:{ exfalso. apply nth_error_None in Hn. lia. }
+      assert (Hr : rps_ok ref) by (eapply Forall_forall; [exact Hok|eapply nth_error_In; exact Hn]).
+      unfold rps_ok in Hr.
+      eapply J_bind_true; [eapply J_true; apply J_rep_n; [unfold loop_bound; lia|apply J_hparse_rps_inter_entry]|].
+      intro. apply J_ret. unfold rps_ok. cbn [rps_ndelta]. bnd.
+    - eapply J_bind_true; [jauto|]. intro. eapply J_bind_true; [jauto|]. intro. cbv zeta.
+      destruct ((16 <? u8 a) || (16 <? u8 a0)).
+      { eapply J_bind_true; [apply J_set_err|]. intro. apply J_ret. unfold rps_ok. cbn [rps_ndelta]. lia. }
+      eapply J_bind_true; [jauto|]. intro. eapply J_bind_true; [jauto|]. intro.
+      apply J_ret. unfold rps_ok. cbn [rps_ndelta]. bnd.
+  Qed.
+
+  Lemma J_hparse_rps_loop : forall cnt idx num acc,
+    length acc = N.to_nat idx -> Forall rps_ok acc ->
+    J (fun l => length l = (N.to_nat idx + cnt)%nat /\ Forall rps_ok l) (hparse_rps_loop R cnt idx num acc).
+  Proof.
+    induction cnt as [|c IH]; intros idx num acc Hl Hok; cbn [hparse_rps_loop].
+    - apply J_ret. split; [lia|exact Hok].
+    - eapply J_bind; [apply (J_hparse_st_rps idx num acc); [lia|exact Hok]|]. intros r Hr.
+      eapply J_bind_true; [apply J_get_err|]. intros e. destruct e; [apply J_fail|].
+      eapply J_weaken; [apply (IH (idx + 1) num (acc ++ [r]))|].
+      + rewrite app_length. cbn [length]. lia.
+      + apply Forall_app. split; [exact Hok|constructor; [exact Hr|constructor]].
+      + intros l [H1 H2]. split; [lia|exact H2].
+  Qed.
+
+  Lemma J_hskip_scaling_entry size_id : J (fun _ => True) (hskip_scaling_entry R size_id).
+  Proof. unfold hskip_scaling_entry. jauto. Qed.
+
+  Lemma J_hskip_scaling_list_data : J (fun _ => True) (hskip_scaling_list_data R).
+  Proof.
+    unfold hskip_scaling_list_data.
+    repeat (eapply J_bind_true; [eapply J_true; apply (J_rep (fun _ => True)); apply J_hskip_scaling_entry|]; intro).
+    jauto.
+  Qed.
+
+  Lemma J_hparse_cpb subpic : J (fun _ => True) (hparse_cpb R subpic).
+  Proof. unfold hparse_cpb. jauto. Qed.
+
+  Lemma J_hparse_subhrd nal vcl subpic : J (fun _ => True) (hparse_subhrd R nal vcl subpic).
+  Proof.
+    unfold hparse_subhrd.
+    do 3 (eapply J_bind_true; [jauto|]; intro).
+    destruct a1 as [elemental low_delay].
+    eapply (J_bind (fun cnt => cnt <= 255)).
+    { destruct (negb low_delay); [|apply J_ret; lia].
+      eapply J_bind_true; [apply J_ue|]. intros c. destruct (31 <? c).
+      - eapply J_bind_true; [apply J_set_err|]. intro. apply J_ret. lia.
+      - apply J_ret. bnd. }
+    intros cnt Hc.
+    eapply J_bind_true.
+    { destruct nal; [|jauto]. eapply J_true. apply (J_rep_n (fun _ => True)); [unfold loop_bound; lia|apply J_hparse_cpb]. }
+    intro. eapply J_bind_true.
+    { destruct vcl; [|jauto]. eapply J_true. apply (J_rep_n (fun _ => True)); [unfold loop_bound; lia|apply J_hparse_cpb]. }
+    intro. jauto.
+  Qed.
+
+  Lemma J_hparse_hrd max_sub : max_sub <= 255 -> J (fun _ => True) (hparse_hrd R max_sub).
+  Proof.
+    intros Hm. unfold hparse_hrd.
+    do 3 (eapply J_bind_true; [jauto|]; intro).
+    destruct a1 as [[[[[[[sp a1] brs] css] cds] i] au] dp]. destruct a1 as [[[td dcr] spsei] dod].
+    eapply J_bind_true.
+    { eapply J_true. apply (J_rep_n (fun _ => True)); [unfold loop_bound; lia|apply J_hparse_subhrd]. }
+    intro. jauto.
+  Qed.
+
+  Lemma J_hparse_bsr : J (fun _ => True) (hparse_bsr R).
+  Proof. unfold hparse_bsr. jauto. Qed.
+
+  Lemma J_hparse_vui max_sub : max_sub <= 255 -> J (fun _ => True) (hparse_vui R max_sub).
+  Proof.
+    intros Hm. unfold hparse_vui.
+    Ltac jsub ::= first
+      [ eapply J_true; apply (J_rep_n (fun _ => True)); [bnd | ]
+      | eapply J_true; apply (J_rep (fun _ => True))
+      | apply J_more | apply J_trailing
+      | apply J_hparse_bsr
+      | apply J_hparse_hrd; assumption ].
+    jauto.
+  Qed.
+
+  Lemma J_hparse_sps_3d : J (fun _ => True) (hparse_sps_3d R).
+  Proof. unfold hparse_sps_3d. jauto. Qed.
+
+  Section WithFuel.
+  Variable fuel : nat.
+  Hypothesis H_fuel : B < N.of_nat fuel.
+
+  Lemma J_rue_rd w : 1 <= w -> forall n, J (fun _ => True) (rep_until_err_f R fuel n (rd R w)).
+  Proof. intros Hw n. eapply J_true. apply J_rep_until_err_f; [exact H_fuel|apply D_Dw, D_rd; exact Hw]. Qed.
+
+  Lemma J_hparse_sps_scc_d chroma bdl bdc : J (fun _ => True) (hparse_sps_scc_d R fuel chroma bdl bdc).
+  Proof.
+    unfold hparse_sps_scc_d.
+    Ltac jsub ::= first
+      [ apply J_rue_rd; lia
+      | eapply J_true; apply (J_rep_n (fun _ => True)); [bnd | ]
+      | eapply J_true; apply (J_rep (fun _ => True))
+      | apply J_more | apply J_trailing ].
+    jauto.
+  Qed.
+
+  Lemma J_hparse_sps_ext_d chroma bdl bdc : J (fun _ => True) (hparse_sps_ext_d R fuel chroma bdl bdc).
+  Proof.
+    unfold hparse_sps_ext_d.
+    Ltac jsub ::= first
+      [ apply J_hparse_sps_scc_d | apply J_hparse_sps_3d
+      | eapply J_true; apply J_hext_data_loop; assumption
+      | eapply J_true; apply (J_rep_n (fun _ => True)); [bnd | ]
+      | eapply J_true; apply (J_rep (fun _ => True))
+      | apply J_more | apply J_trailing ].
+    jauto.
+  Qed.
+
+  Lemma J_hparse_end {A} (Phi : A -> Prop) (a : A) : Phi a -> J Phi (hparse_end R a).
+  Proof.
+    intros Ha. unfold hparse_end.
+    eapply J_bind_true; [apply J_trailing|]. intros tr. destruct tr; [apply J_fail|].
+    eapply J_bind_true; [apply J_get_err|]. intros e. destruct e; [apply J_fail|].
+    eapply J_bind_true; [apply J_rd|]. intro.
+    eapply J_bind_true; [apply J_get_err|]. intros e2. destruct (negb e2); [apply J_fail|apply J_ret; exact Ha].
+  Qed.
+
+  (* what the slice-header parser needs of an SPS: the st_ref_pic_set list has (at least) the announced
+     number of entries (so ShortTermRefPicSets[idx - deltaIdx] is in range) and every NumDeltaPocs is a uint8 *)
+  Definition hsps_wf (sp : hsps) : Prop :=
+    (N.to_nat (h_num_st_rps sp) <= length (h_st_rps sp))%nat /\ Forall rps_ok (h_st_rps sp).
+
+  (* steps through binds with trivial postconditions up to (not including) a bind whose first program matches `stop` *)
+  Ltac jupto stop :=
+    repeat (lazymatch goal with
+            | |- J _ (bind ?m _) =>
+                lazymatch m with
+                | context [stop] => fail
+                | _ => eapply J_bind_true; [jauto|]; intro
+                end
+            | |- J _ (let _ := _ in _) => cbv zeta
+            | |- J _ (match ?p with pair _ _ => _ end) => destruct p
+            | |- J _ (if ?c then fail else _) => destruct c eqn:?; [apply J_fail|]
+            end).
+
+  Lemma J_hparse_sps_d : J hsps_wf (hparse_sps_d R fuel).
+  Proof.
+    unfold hparse_sps_d.
+    Ltac jsub ::= first
+      [ apply J_hparse_ptl; bnd
+      | apply J_hskip_scaling_list_data
+      | apply J_hparse_vui; bnd
+      | apply J_hparse_sps_ext_d
+      | eapply J_true; apply (J_rep_n (fun _ => True)); [bnd | ]
+      | eapply J_true; apply (J_rep (fun _ => True))
+      | apply J_more | apply J_trailing ].
+    jupto (@hparse_rps_loop).
+    match goal with |- J _ (bind (hparse_rps_loop R (N.to_nat ?nst) _ _ _) _) =>
+      eapply J_bind; [apply (J_hparse_rps_loop (N.to_nat nst) 0 nst []); [reflexivity|constructor]|];
+      intros sets [Hlen Hok]; assert (Hnst : nst <= 64) by lia end.
+    jupto (@hparse_end).
+    apply J_hparse_end. unfold hsps_wf. cbn [h_num_st_rps h_st_rps]. split; [|exact Hok].
+    unfold u8. rewrite N.mod_small by lia. lia.
+  Qed.
+
+  (* ================================================================== HEVC PPS *)
+  (* like J, but the program may also give up with OutOfFuel (used for the one unmodelled branch) *)
+  Definition JO {A} (Phi : A -> Prop) (m : @M St A) : Prop :=
+    forall s, inv s ->
+      m s = Err \/ m s = OutOfFuel \/ exists a s', m s = Ok (a, s') /\ inv s' /\ mu s' <= mu s /\ Phi a.
+
+  Lemma J_JO {A} (Phi : A -> Prop) m : J Phi m -> JO Phi m.
+  Proof. intros H s Hs. destruct (H s Hs) as [E|E]; [left; exact E|right; right; exact E]. Qed.
+  Lemma JO_oof {A} (Phi : A -> Prop) : JO Phi (@out_of_fuel St A).
+  Proof. intros s Hs. right. left. reflexivity. Qed.
+  Lemma JO_bind_true {A C} (Psi : C -> Prop) (m : @M St A) (k : A -> @M St C) :
+    J (fun _ => True) m -> (forall a, JO Psi (k a)) -> JO Psi (bind m k).
+  Proof.
+    intros Hm Hk s Hs. destruct (Hm s Hs) as [E|(a & s1 & E & Hi & Hmu & _)].
+    { left. apply bind_err. exact E. }
+    rewrite (bind_ok _ _ _ _ _ E).
+    destruct (Hk a s1 Hi) as [E2|[E2|(b & s2 & E2 & Hi2 & Hmu2 & Hp2)]]; [left; exact E2|right; left; exact E2|right; right].
+    exists b, s2. repeat split; auto. lia.
+  Qed.
+
+  Lemma u64_small x : x < 18446744073709551616 -> u64 x = x.
+  Proof. intros H. unfold u64. apply N.mod_small. exact H. Qed.
+
+  Lemma Dw_se_pair {C} (f : Z -> Z -> C) : Dw (bind (rd_se R) (fun a => bind (rd_se R) (fun b => ret (f a b)))).
+  Proof. apply D_Dw, D_bind; [apply D_se|]. intro. jauto. Qed.
+
+  Lemma J_hparse_pps_range_d ts : J (fun _ => True) (hparse_pps_range_d R fuel ts).
+  Proof.
+    unfold hparse_pps_range_d.
+    Ltac jsub ::= first
+      [ eapply J_true; apply J_rep_until_err_f; [assumption | apply Dw_se_pair]
+      | eapply J_true; apply (J_rep_n (fun _ => True)); [bnd | ]
+      | eapply J_true; apply (J_rep (fun _ => True))
+      | apply J_more | apply J_trailing ].
+    jauto.
+  Qed.
+
+  Lemma J_hparse_pps_scc_d : J (fun _ => True) (hparse_pps_scc_d R fuel).
+  Proof.
+    unfold hparse_pps_scc_d.
+    Ltac jsub ::= first
+      [ apply J_rue_rd; rewrite u64_small by lia; lia
+      | eapply J_true; apply (J_rep_n (fun _ => True)); [bnd | ]
+      | eapply J_true; apply (J_rep (fun _ => True))
+      | apply J_more | apply J_trailing ].
+    jauto.
+  Qed.
+
+  Definition hpps_wf (pp : hpps) : Prop := pp_num_extra_bits pp <= 255.
+
+  Ltac joupto stop :=
+    repeat (lazymatch goal with
+            | |- JO _ (bind ?m _) =>
+                lazymatch m with
+                | context [stop] => fail
+                | _ => eapply JO_bind_true; [jauto|]; intro
+                end
+            | |- JO _ (let _ := _ in _) => cbv zeta
+            | |- JO _ (match ?p with pair _ _ => _ end) => destruct p
+            | |- JO _ (if ?c then fail else _) => destruct c eqn:?; [apply J_JO, J_fail|]
+            | |- JO _ (if ?c then out_of_fuel else _) => destruct c eqn:?; [apply JO_oof|]
+            end).
+
+  (* OutOfFuel = the PPS selects the multilayer or the 3D extension, which C15HevcModel does not cover *)
+  Lemma JO_hparse_pps_d spsmap : JO hpps_wf (hparse_pps_d R fuel spsmap).
+  Proof.
+    unfold hparse_pps_d.
+    Ltac jsub ::= first
+      [ eapply J_true; apply J_rep_until_err_f; [assumption | apply D_Dw, D_ue]
+      | apply J_hskip_scaling_list_data
+      | apply J_hparse_pps_range_d | apply J_hparse_pps_scc_d
+      | eapply J_true; apply J_hext_data_loop; assumption
+      | eapply J_true; apply (J_rep_n (fun _ => True)); [bnd | ]
+      | eapply J_true; apply (J_rep (fun _ => True))
+      | apply J_more | apply J_trailing ].
+    joupto (@hparse_end).
+    apply J_JO, J_hparse_end. unfold hpps_wf. cbn [pp_num_extra_bits]. bnd.
+  Qed.
+
+  (* ================================================================== HEVC slice segment header *)
+  Lemma J_hlt_first i nlsps sp : J (fun _ => True)
+    (if i <? nlsps then
+       if 1 <? h_num_lt sp then
+         bind (rd R (ceil_log2 (h_num_lt sp))) (fun ix =>
+           match nth_error (h_lt sp) (N.to_nat ix) with None => fail | Some l => ret l end)
+       else match nth_error (h_lt sp) 0 with None => fail | Some l => ret l end
+     else bind (rd R (u8 (h_log2_poc sp + 4))) (fun p => bind (rd_flag R) (fun u => ret (mkHLt (u16 p) u false 0)))).
+  Proof. jauto. Qed.
+
+  Lemma hlt_loop_f_total : forall fl cnt i nlsps sp acc npt s, inv s -> mu s < N.of_nat fl ->
+    hlt_loop_f R fl cnt i nlsps sp acc npt s = Err \/
+    exists a s', hlt_loop_f R fl cnt i nlsps sp acc npt s = Ok (a, s') /\ inv s' /\ mu s' <= mu s.
+  Proof.
+    induction fl as [|f IH]; intros cnt i nlsps sp acc npt s Hs Hf; [lia|].
+    cbn [hlt_loop_f]. destruct (cnt =? 0).
+    { right. eexists _, s. split; [reflexivity|]. split; [auto|lia]. }
+    destruct (J_hlt_first i nlsps sp s Hs) as [E|(lt0 & s1 & E & Hi1 & Hm1 & _)].
+    { left. apply bind_err. exact E. }
+    rewrite (bind_ok _ _ _ _ _ E). cbv zeta.
+    destruct (D_flag s1 Hi1) as [E2|(msb & s2 & E2 & Hi2 & Hm2 & Hd2)].
+    { left. apply bind_err. exact E2. }
+    rewrite (bind_ok _ _ _ _ _ E2).
+    assert (Jc : J (fun _ => True) (if msb then rd_ue R else ret 0)) by (destruct msb; jauto).
+    destruct (Jc s2 Hi2) as [E3|(cyc & s3 & E3 & Hi3 & Hm3 & _)].
+    { left. apply bind_err. exact E3. }
+    rewrite (bind_ok _ _ _ _ _ E3).
+    match goal with |- context [bind (get_err R) (fun e => if e then ret ?st else ?loop)] =>
+      destruct (err_then_loop loop st s3 (N.of_nat f) Hi3) as [E4|(a & s' & E4 & Hi' & Hm')] end.
+    - intros Hp3. assert (0 < mu s1) by lia. specialize (Hd2 H). lia.
+    - intros s0 Hs0 Hm0. apply IH; auto.
+    - left. exact E4.
+    - right. exists a, s'. repeat split; auto. lia.
+  Qed.
+
+  Lemma J_hlt_loop_f cnt i nlsps sp acc npt : J (fun _ => True) (hlt_loop_f R fuel cnt i nlsps sp acc npt).
+  Proof.
+    intros s Hs. pose proof (H_B s Hs).
+    destruct (hlt_loop_f_total fuel cnt i nlsps sp acc npt s Hs) as [E|(a & s' & E & Hi & Hm)]; [lia|left; exact E|right].
+    exists a, s'. repeat split; auto.
+  Qed.
+
+  Lemma J_hparse_rplm is_b l0 l1 npt : J (fun _ => True) (hparse_rplm R is_b l0 l1 npt).
+  Proof.
+    unfold hparse_rplm.
+    Ltac jsub ::= first
+      [ eapply J_true; apply (J_rep_n (fun _ => True)); [bnd | ]
+      | eapply J_true; apply (J_rep (fun _ => True)) ].
+    jauto.
+  Qed.
+
+  Lemma J_hparse_pwt_values fl : J (fun _ => True) (hparse_pwt_values R fl).
+  Proof. unfold hparse_pwt_values. jauto. Qed.
+
+  Lemma J_hparse_pwt_list cat_nz cnt : cnt <= 255 -> J (fun _ => True) (hparse_pwt_list R cat_nz cnt).
+  Proof.
+    intros Hc. unfold hparse_pwt_list.
+    eapply J_bind_true; [jauto|]. intro. eapply J_bind_true; [jauto|]. intro.
+    eapply J_true. apply J_mapM. intro. apply J_hparse_pwt_values.
+  Qed.
+
+  Lemma J_hparse_pwt is_b cat_nz l0 l1 : J (fun _ => True) (hparse_pwt R is_b cat_nz l0 l1).
+  Proof.
+    unfold hparse_pwt.
+    Ltac jsub ::= first
+      [ apply J_hparse_pwt_list; bnd
+      | eapply J_true; apply (J_rep_n (fun _ => True)); [bnd | ]
+      | eapply J_true; apply (J_rep (fun _ => True)) ].
+    jauto.
+  Qed.
+
+  Lemma J_hparse_slice_main_d nt sp pp : hsps_wf sp -> hpps_wf pp ->
+    J (fun _ => True) (hparse_slice_main_d R fuel nt sp pp).
+  Proof.
+    intros [Hw1 Hw2] Hp. unfold hpps_wf in Hp. unfold hparse_slice_main_d.
+    Ltac jsub ::= first
+      [ eapply J_true; apply J_hparse_st_rps; assumption
+      | apply J_hlt_loop_f
+      | apply J_hparse_rplm | apply J_hparse_pwt
+      | eapply J_true; apply (J_rep_n (fun _ => True)); [bnd | ]
+      | eapply J_true; apply (J_rep (fun _ => True)) ].
+    jauto.
+  Qed.
+
+  Lemma Dw_entry_point w : Dw (bind (rd R (w + 1)) (fun x => ret (u32 x))).
+  Proof. apply D_Dw, D_bind; [apply D_rd; lia|]. intro. jauto. Qed.
+
+  Lemma J_hparse_slice_d spsmap ppsmap :
+    (forall id sp, spsmap id = Some sp -> hsps_wf sp) ->
+    (forall id pp, ppsmap id = Some pp -> hpps_wf pp) ->
+    J (fun _ => True) (hparse_slice_d R bib fuel spsmap ppsmap).
+  Proof.
+    intros Hsm Hpm. unfold hparse_slice_d.
+    do 4 (eapply J_bind_true; [jauto|]; intro). cbv zeta.
+    destruct (ppsmap (u32 a2)) as [pp|] eqn:Ep; [|apply J_fail].
+    destruct (spsmap (pp_sps_id pp)) as [sp|] eqn:Es; [|apply J_fail].
+    pose proof (Hsm _ _ Es) as Hsw. pose proof (Hpm _ _ Ep) as Hpw.
+    Ltac jsub ::= first
+      [ apply J_hparse_slice_main_d; assumption
+      | eapply J_true; apply J_rep_until_err_f; [assumption | apply Dw_entry_point]
+      | eapply J_true; apply (J_rep_n (fun _ => True)); [bnd | ]
+      | eapply J_true; apply (J_rep (fun _ => True)) ].
+    repeat (lazymatch goal with
+            | |- J _ (bind (rd_flag R) (fun ab => if negb ab then fail else bind (halign_loop _ _ _) _)) => fail
+            | |- J _ (bind _ _) => eapply J_bind_true; [jauto|]; intro
+            | |- J _ (let _ := _ in _) => cbv zeta
+            | |- J _ (match ?p with pair _ _ => _ end) => destruct p
+            end).
+    apply J_align_block. intro. jauto.
+  Qed.
+
+  End WithFuel.
 
 End Logic.
